@@ -438,4 +438,27 @@ N('F-noteq-form', ['C07'], 'series.py', 'Series.fillna',
 B('S-order-ignores-key', ['C12'], 'container_util.py', 'sort_index_for_order',
   "    else:\n        # depth is 1\n        v = cfs if cfs_is_array else cfs.values", "    elif not cfs_is_array and index.depth == 1 and index._map is None:\n        order = index.positions\n    else:\n        # depth is 1\n        v = cfs if cfs_is_array else cfs.values", 'I.order-from', 'sort_index_for_order')
 
+# ---------------------------------------------------------------------------------- parallel (C18)
+B('P-as-completed', ['C18'], 'batch.py', 'Batch._apply_pool_except',
+  "                for label, future in zip(labels, futures):", "                from concurrent.futures import as_completed\n                for label, future in zip(labels, as_completed(futures)):", 'I.parallel-ordered', None)
+B('P-label-after-yield', ['C18'], 'batch.py', 'Batch.apply',
+  "                labels.append(label)\n                yield frame, func", "                yield frame, func\n                labels.append(label)", 'I.parallel-label', 'arg_gen')
+B('P-labels-precomputed', ['C18'], 'node_iter.py', 'IterNodeDelegate._apply_iter_items_parallel',
+  "            yield from zip(func_keys,", "            yield from zip(sorted(func_keys, key=str),", 'I.parallel-label', '_apply_iter_items_parallel')
+B('P-wrong-label', ['C18'], 'batch.py', 'Batch.apply_items',
+  "                labels.append(label)\n                yield frame, func, label", "                labels.append(frame.name)\n                yield frame, func, label", 'I.parallel-label', 'arg_gen')
+B('P-swallow-errors', ['C18'], 'batch.py', 'Batch._apply_pool',
+  "                yield from zip(labels,\n                        executor.map(caller, arg_iter, chunksize=self._chunksize)\n                        )", "                try:\n                    yield from zip(labels,\n                        executor.map(caller, arg_iter, chunksize=self._chunksize)\n                        )\n                except Exception:\n                    return", 'I.parallel-errors', '_apply_pool')
+B('P-except-catches-all', ['C18'], 'batch.py', 'Batch._apply_pool_except',
+  "                    except exception:\n                        continue", "                    except Exception:\n                        continue", 'I.parallel-errors', '_apply_pool_except')
+B('P-chunksize-ignored', ['C18'], 'batch.py', 'Batch._apply_pool',
+  "executor.map(caller, arg_iter, chunksize=self._chunksize)", "executor.map(caller, arg_iter, chunksize=1)", 'I.parallel-ordered', '_apply_pool')
+B('P-align-attr-dropped', ['C18', 'C17'], 'store.py', 'StoreConfigMap',
+  "            'read_chunksize',\n", "", 'I.parallel-config', None)
+B('P-zip-read-paths-diverge', ['C18', 'C17'], 'store_zip.py', '_StoreZip.read_many',
+  "            yield from gen() # type: ignore", "            yield from reversed(tuple(gen())) # type: ignore", 'I.parallel-config', 'read_many')
+N('P-rename-labels-list', ['C18'], 'batch.py', 'Batch.apply',
+  "        labels = []\n        def arg_gen() -> tp.Iterator[tp.Tuple[FrameOrSeries, AnyCallable]]:\n            for label, frame in self._items:\n                labels.append(label)\n                yield frame, func\n\n        return self._apply_pool(labels, arg_gen(), call_func)",
+  "        keys = []\n        def arg_gen() -> tp.Iterator[tp.Tuple[FrameOrSeries, AnyCallable]]:\n            for label, frame in self._items:\n                keys.append(label)\n                yield frame, func\n\n        return self._apply_pool(keys, arg_gen(), call_func)")
+
 VARIANTS = V
